@@ -400,6 +400,8 @@ class Spectrum:
 
         """
         if waveunit != self.waveunit:
+            # sample a converted copy: the caller's Spectrum keeps its units
+            self = self.copy()
             self.to(waveunit)
 
         interp = scipy.interpolate.interp1d(self.wave, self.value, kind=method,
@@ -511,6 +513,8 @@ class Spectrum:
                              'wavelength, consider using Spectrum.integrate() instead.')
 
         if waveunit != self.waveunit:
+            # bin a converted copy: the caller's Spectrum keeps its units
+            self = self.copy()
             self.to(waveunit)
 
         if interp_method == 'trapz':
@@ -525,7 +529,8 @@ class Spectrum:
                 raise ValueError('Unknown ends ', ends)
 
             # sample
-            f = self.sample(x, method=sample_method, fill_value=fill_value)
+            f = self.sample(x, method=sample_method, fill_value=fill_value,
+                            waveunit=waveunit)
 
             # apply the chained trapezoidal rule
             bins = np.array([])
@@ -550,7 +555,8 @@ class Spectrum:
                 raise ValueError('Unknown ends ', ends)
 
             # sample
-            f = self.sample(x, method=sample_method, fill_value=fill_value)
+            f = self.sample(x, method=sample_method, fill_value=fill_value,
+                            waveunit=waveunit)
 
             # apply the chained simpson's rule
             bins = np.array([])
@@ -899,6 +905,12 @@ def _interp_common(s1, s2, sampling, method, fill_value):
     """
     # compute a common wavelength array that spans both spectrum and has the
     # desired sampling
+    # work in the wavelength unit of the first operand (the unit of the result)
+    waveunit = s1.waveunit
+    if s2.waveunit != waveunit:
+        s2 = s2.copy()
+        s2.to(waveunit)
+
     minwave = min(s1.wave.min(), s2.wave.min())
     maxwave = max(s1.wave.max(), s2.wave.max())
 
@@ -915,8 +927,10 @@ def _interp_common(s1, s2, sampling, method, fill_value):
     s2_wave = commonwave[s2_index]
 
     # sample each Spectrum at the requested sampling
-    s1_samplevalue = s1.sample(s1_wave, method=method, fill_value=fill_value)
-    s2_samplevalue = s2.sample(s2_wave, method=method, fill_value=fill_value)
+    s1_samplevalue = s1.sample(s1_wave, method=method, fill_value=fill_value,
+                               waveunit=waveunit)
+    s2_samplevalue = s2.sample(s2_wave, method=method, fill_value=fill_value,
+                               waveunit=waveunit)
 
     # create nominal value arrays
     s1_value = fill_value * np.ones(commonwave.shape)
